@@ -329,7 +329,7 @@ class Built:
         wk = (self.cfg.get('wrap') or {}).get(str(self.nops - 1))
         if kind == 'route':
             _, template, res_idx, suffix = op
-            kw = {'suffix': wrap_str(suffix, wk)} if suffix else {}
+            kw = {'suffix': wrap_str(suffix, wk)} if suffix is not None else {}
             if self.cfg.get('compile_now') and self.nops % 2:
                 kw['compile'] = True
             self.app.add_route(wrap_str(template, wk), self.resources[res_idx], **kw)
@@ -572,6 +572,8 @@ def check_request(rec, b, method, path, checkpoints=(), final=True, headers=()):
                 not (cls == 'static' and alt['idx'] == _i):
             rec.count('cls.static-several-slashes-does-not-claim-single-slash-path')
             break
+    if cls in ('responder', 'auto-options', '405') and alt['suffix'] == '':
+        rec.count('cls.explicit-empty-suffix.' + cls)
     if cls in ('responder', 'auto-options', '405'):
         wk = b.op_wrap('route', alt['template'])
         if wk:
@@ -634,7 +636,7 @@ def family_method_subsets():
     for mask in range(32):
         S = [m for i, m in enumerate(U5) if mask >> i & 1]
         rest = [m for m in U5 if m not in S] + ['DELETE']
-        for suffixed in (None, 'x', 'byID'):
+        for suffixed in (None, 'x', 'byID', ''):
             if suffixed and not S:
                 continue            # add_route refuses a suffix without responders; not this property
             for stack in ('wsgi', 'asgi'):
@@ -644,9 +646,14 @@ def family_method_subsets():
                             [M.responder_name(m) for m in rest]
                 elif suffixed:
                     attrs = [M.responder_name(m, 'x') for m in S] + [M.responder_name(m) for m in rest]
+                elif suffixed == '':
+                    # explicit EMPTY suffix ("no suffix" spelled ''); every 4th resource also has 'on_get_'-style
+                    # attributes, which makes the literal reading of the docs tenable as well
+                    attrs = [M.responder_name(m) for m in S] + [M.responder_name(m, 'x') for m in rest] + \
+                            (['on_get_', 'on_delete_'] if mask % 4 == 3 else [])
                 else:
                     attrs = [M.responder_name(m) for m in S] + [M.responder_name(m, 'x') for m in rest] + DECOYS
-                for v, mw in enumerate(MW_VARIANTS):
+                for v, mw in enumerate(MW_VARIANTS[:1] if suffixed == '' else MW_VARIANTS):
                     yield {
                         'stack': stack, 'sink_first': bool(mask & 1) ^ bool(suffixed),
                         'resources': [{'callable': sorted(attrs)}],
@@ -907,6 +914,11 @@ def apply_or_report(rec, b, checkpoints):
         b.apply_next()
         return True
     except Exception as ex:  # noqa
+        op = b.cfg['ops'][b.nops - 1]
+        if op[0] == 'route' and op[3] == '' and type(ex).__name__ == 'SuffixedMethodNotFoundError' and \
+                not M.implemented(b.model.resources[op[2]], M.EMPTY_AS_SUFFIX):
+            rec.count('skip.empty-suffix-refused')      # docs read literally: a suffix without responders
+            return False
         rec.count('mon.add-op-refused')
         rec.violation('legal-add-op-raised', {'cfg': b.cfg, 'custom': CUSTOM, 'nops': b.nops, 'checkpoints': list(checkpoints),
                                               'op': b.cfg['ops'][b.nops - 1], 'exc': repr(ex)})
@@ -1013,7 +1025,7 @@ def gen_config(rng):
     for t in templates:
         ri = rng.randrange(len(resources))
         sfxs = resources[ri]['suffixes']
-        suffix = rng.choice(sfxs) if sfxs and rng.random() < 0.5 else None
+        suffix = rng.choice(sfxs) if sfxs and rng.random() < 0.5 else (None if rng.random() < 0.85 else '')
         ops.append(['route', t, ri, suffix])
     hints = []
     for i, (pat, flags, examples) in enumerate(rng.sample(sink_pool(rng), rng.randint(0, 4))):
@@ -1244,7 +1256,9 @@ def run(rec):
         rec.floor('cls.%s.readd-static-decisive' % stack, 40)
     rec.floor('exh.readd-sink-configs', 288)
     rec.floor('exh.readd-static-configs', 192)
-    rec.floor('exh.subset-configs', 752)
+    rec.floor('exh.subset-configs', 816)
+    for c, n in (('responder', 40), ('405', 40), ('auto-options', 20)):
+        rec.floor('cls.explicit-empty-suffix.' + c, n)
     for hook in ('request', 'resource'):
         for cls in ('auto-options', '405', 'responder'):
             rec.floor('cls.preset-status.%s.%s' % (hook, cls), 40)
